@@ -991,11 +991,16 @@ def run(ctx):
         "(hypotheses of the general theorems C06_permitted_literal_unchanged / C06_dial_target_is_checked; G2-G5 are PROVED for the concrete text functions (C06_ip_string_no_brackets, C06_zone_law_concrete, C06_literal_law_concrete, C06_ip_string_norm) and G1 as C06_joined_text_not_a_literal, giving the hypothesis-free *_concrete theorems; G1 and G4 are also observed on every run)",
         "the Go in-package driver (DNS stub, dial recorder), the case generator, the Python policy oracle and "
         "the JSON->Gallina emitter are trusted",
+        "C06_every_dial_is_checked / C06_dial_target_is_checked_names assume of the name system only names_ok (answers are bytes, no bracket in a "
+        "zone); the connecting transport of the sequence lane is a stand-in for the DTLS transport (Connect records the object and returns a "
+        "loopback connection) - ingestRegistration, handleConnectingTpReg, Proxy and net.Dial are the real code",
     ]
     ctx.cov["trusted_base"] = [
         "Coq 8.16.1 kernel (coqc; coqchk in the thorough tier); vm_compute for evaluating the model on cases",
         "no axioms: every theorem prints 'Closed under the global context'",
         "hand-written model coq/C06/Model.v tied to pkg/station/lib/registration_config.go by the correspondence run",
+        "hand-written model coq/C06/ModelIngest.v (ingest with duplicates, connecting hand-off, lookup, reload, expiry) tied to "
+        "registration_ingest.go / registration.go / proxies.go by the sequence lane (chk_seq)",
         "Go standard library net / strconv / regexp (SplitHostPort, JoinHostPort, ParseUint, IPNet.Contains are "
         "re-stated concretely and compared with Go on every run; ParseIP, ResolveIPAddr, IP.String, regexp are oracles)",
     ]
@@ -1004,9 +1009,12 @@ def run(ctx):
                        "change after admission, malformed strings, ports, mutation fuzz; call HISTORIES on one RegConfig / "
                        "RegistrationManager (check, OnReload to another policy, check again, other spellings, reload back; "
                        "ingest + dial before and after a reload that forbids the address); a case is non-trivial if "
-                       "hash-distinct (counted per outcome class); plus ingest->Proxy runs with a dial recorder")
-    ctx.coq_props(extra_dirs=["C07"])
-    rc, out = ctx.coq_make(["C06/Examples.vo"])
+                       "hash-distinct (counted per outcome class); plus ingest->Proxy runs with a dial recorder; plus operation "
+                       "SEQUENCES on one RegistrationManager with a wrapping and a connecting transport: new registrations and duplicates "
+                       "whose covert differs (forbidden literal, name resolving to a forbidden address, name that rebinds), before and after "
+                       "validation, across OnReload and expiry, incoming connections, Connect failures, random op sequences")
+    ctx.coq_props(extra_dirs=["C07", "C18"])
+    rc, out = ctx.coq_make(["C06/Examples.vo", "C06/ExamplesIngest.vo"])
     if rc != 0:
         ctx.broken("examples", "coq/C06/Examples.v (non-vacuity) no longer checks: %s" % out[-400:])
 
